@@ -137,7 +137,7 @@ def raw_scan_types(loader) -> dict[str, list]:
         if path.suffix not in SEMANTIC:
             continue
         for e in tree.root.iter():
-            if isinstance(e.tag, str):
+            if isinstance(e.tag, str) and e.get("href") is None:     # a placeholder stands for the fragment root it refers to
                 with contextlib.suppress(Exception):
                     xt = helpers.xtype_of(e)
                     if xt:
@@ -171,3 +171,15 @@ def acc_kind(acc) -> str:
         if isinstance(acc, cls):
             return k
     return type(acc).__name__
+
+
+def link_element_types() -> set[str]:
+    """xsi:types of the elements in which some LinkAccessor stores its references (allocations, involvements, realizations, ...)"""
+    from capellambse.model import _descriptors as D, _xtype
+    out: set[str] = set()
+    for cls in _xtype.XTYPE_HANDLERS[None].values():
+        for an in dir(cls):
+            a = getattr(cls, an, None)
+            if isinstance(a, D.LinkAccessor):
+                out |= set(a.xtypes)
+    return out
